@@ -39,10 +39,10 @@ LEVEL = "proof"
 class SafeApi(apiharness.Api):
     """an exception that escapes an op (e.g. a public getter raising inside `view`) becomes an `EXC <type>` output line"""
 
-    def _subscriber(self, kind, sid, raises):
+    def _subscriber(self, kind, sid, raises, flavour=None):
         # the harness hashes subscriber objects by a str tuple (randomised per process): a fixed hash keeps the order in which the
         # implementation's subscriber sets are walked - hence every run - the same for a given VERIF_SEED
-        s = super()._subscriber(kind, sid, raises)
+        s = super()._subscriber(kind, sid, raises, flavour)
         h = zlib.crc32(("%s %s" % (kind, sid)).encode())
         type(s).__hash__ = lambda self, h=h: h
         return s
